@@ -21,7 +21,7 @@ PICK = {
     "C07": r"^(tu_SkipRecord|tu_ReadRecordHeader|tu_FilterOK|tu_CMD_FilterList|tu_ReadRelocInfo|pl_ProcessSingle_data_g0|pl_ProcessSingle_data_g1|pl_ProcessSingle_reloc_truncated)$",
     "C04": r"^(cf_WriteBytes_fit_new_g2|cf_WriteBytes_overflow_g2|cf_NewRecord_full|cf_CloseFile|as_WriteCode)$",
     "C02": r"^(err_WrXErrorPos|err_CodeENDEXPECT)$",
-    "C13": r"^(sym_SymbolAdder|sym_FindNode)$",
+    "C13": r"^(sym_SymbolAdder|sym_FindNode|sym_ExpandStrSymbol)$",
     "C11": r"^(rep_IRP_step|rep_IRP_Cleanup_twice|rep_IRPN_count)$",
     "C05": r"^(pb_ProcessFile_data_g2|pb_MeasureFile|pb_OpenTarget_g1_ALL)$",
     "C14": r"^(i4004_DecodeOneRReg|i4004_DecodeJCN)$",
